@@ -43,6 +43,10 @@ type Case struct {
 	// SharedBurst > 0: every producer additionally reports SharedBurst distinct values through
 	// ONE counter, ONE gauge and ONE timer handle shared by all producers
 	SharedBurst int `json:"sharedBurst,omitempty"`
+	// Dead > 0: an unreachable destination (nobody listens on its port: sends fail with
+	// ECONNREFUSED) is inserted at position Dead-1 (mod Dests+1) of the host list. Every live
+	// destination, before or after it, must still get everything exactly once.
+	Dead int `json:"dead,omitempty"`
 }
 
 func tagStr() *rapid.Generator[pbt.S] {
@@ -87,6 +91,9 @@ func gen(t *rapid.T) Case {
 		}
 		c.Producers = append(c.Producers, ops)
 	}
+	if rapid.IntRange(0, 3).Draw(t, "dead?") == 0 {
+		c.Dead = rapid.IntRange(1, 4).Draw(t, "dead")
+	}
 	if np >= 2 && rapid.IntRange(0, 5).Draw(t, "shared") == 0 {
 		c.SharedBurst = rapid.SampledFrom([]int{50, 500, 3000}).Draw(t, "sharedBurst")
 	}
@@ -113,6 +120,19 @@ func run(c Case) (pbt.Outcome, error) {
 		defer s.Close()
 		sinks = append(sinks, s)
 		addrs = append(addrs, s.Addr)
+	}
+	judged := len(sinks) // every live destination is judged, wherever the dead one sits in the list
+	deadPos := -1
+	if c.Dead > 0 {
+		d, err := udpsink.New()
+		if err != nil {
+			return out, fmt.Errorf("harness: %v", err)
+		}
+		deadAddr := d.Addr
+		d.Close()
+		pos := (c.Dead - 1) % (len(sinks) + 1)
+		addrs = append(addrs[:pos:pos], append([]string{deadAddr}, addrs[pos:]...)...)
+		deadPos = pos
 	}
 	var mu sync.Mutex
 	batches := 0
@@ -274,7 +294,7 @@ func run(c Case) (pbt.Outcome, error) {
 	for k, v := range c.Common {
 		commonWant[string(k)] = string(v)
 	}
-	for si, s := range sinks {
+	for si, s := range sinks[:judged] {
 		if !s.WaitCount(nb, 5*time.Second) {
 			errs.Addf("destination %d: Close returned after %d batches were emitted but only %d datagrams arrived within 5s", si, nb, s.Count())
 		}
@@ -353,6 +373,9 @@ func run(c Case) (pbt.Outcome, error) {
 	if c.SharedBurst > 0 {
 		out.Classes = append(out.Classes, "shared-handles")
 	}
+	if c.Dead > 0 {
+		out.Classes = append(out.Classes, fmt.Sprintf("dead-destination-after-%d-live", deadPos))
+	}
 	if math.IsNaN(0) {
 		out.Classes = nil
 	}
@@ -362,7 +385,7 @@ func run(c Case) (pbt.Outcome, error) {
 func TestC13(t *testing.T) {
 	pbt.Main(t, pbt.Prop[Case]{
 		ID: "C13", Name: "delivery",
-		Rule: "rapid-generated M3 reporter configurations (Compact/Binary, 1..3 real loopback destinations, queue size 1..4096, common tags, packet size, default or custom bucket tag names) and 1..4 producer goroutines (real threads) started right after NewReporter, each a history of 1..12 Allocate*+Report*/Flush ops (and, in a sixth of the cases, bursts of 50..3000 distinct values per producer through ONE counter, gauge and timer handle shared by all producers) with arbitrary byte-string names, tag keys/values drawn from an alphabet rich in '=' (so that different tag maps have equal 'k=v' strings), full-range int64/float64 values, histogram buckets of strictly increasing specs, repeats; then Close. Oracle per destination: every datagram decodes as exactly one well-formed one-way message with the configured common tags (service and env included); the multiset of decoded non-internal metrics (name, kind, value bits, tag set, bucket tags present) equals the multiset reported; timestamps within [construction, return of the report call] (+1ms); Close returned only after every emitted batch had been sent (all datagrams present). Non-trivial: >=2 distinct tag sets and >=2 datagrams. Distinct: FNV-64 of the case JSON.",
+		Rule: "rapid-generated M3 reporter configurations (Compact/Binary, 1..3 real loopback destinations - in a quarter of the cases with an additional unreachable destination somewhere in the host list (sends to it fail), which must not disturb the live ones -, queue size 1..4096, common tags, packet size, default or custom bucket tag names) and 1..4 producer goroutines (real threads) started right after NewReporter, each a history of 1..12 Allocate*+Report*/Flush ops (and, in a sixth of the cases, bursts of 50..3000 distinct values per producer through ONE counter, gauge and timer handle shared by all producers) with arbitrary byte-string names, tag keys/values drawn from an alphabet rich in '=' (so that different tag maps have equal 'k=v' strings), full-range int64/float64 values, histogram buckets of strictly increasing specs, repeats; then Close. Oracle per destination: every datagram decodes as exactly one well-formed one-way message with the configured common tags (service and env included); the multiset of decoded non-internal metrics (name, kind, value bits, tag set, bucket tags present) equals the multiset reported; timestamps within [construction, return of the report call] (+1ms); Close returned only after every emitted batch had been sent (all datagrams present). Non-trivial: >=2 distinct tag sets and >=2 datagrams. Distinct: FNV-64 of the case JSON.",
 		Gen:  gen, Run: run,
 	})
 }
